@@ -31,6 +31,7 @@ type Cell struct {
 	Breaker bool     `json:"breaker"`
 	Esm     string   `json:"esm,omitempty"`
 	Off     []string `json:"off"`
+	Pm      string   `json:"pm,omitempty"`
 	Hook    string   `json:"hook,omitempty"`
 	App     string   `json:"app,omitempty"`
 }
@@ -101,6 +102,55 @@ func (f *Fix) signer(name string) sdk.AccAddress {
 	panic("unknown signer " + name)
 }
 
+// deliverObserved has the semantics of sim.Deliver (ValidateBasic, routed handler on a cache-wrapped context, write back
+// only on success, panics are failed transactions) and additionally reports whether a FAILED handler had already written
+// to its branch before failing (then "nothing changed" rests on the transaction's atomicity; recorded, never judged).
+// pre is the digest of e taken by the caller just before.
+func deliverObserved(e *sim.Env, msg sdk.Msg, pre string) (res sim.Result, dirty bool) {
+	if err := msg.ValidateBasic(); err != nil {
+		return sim.Deliver(e.App, e.Ctx, msg), false
+	}
+	h := e.App.MsgServiceRouter().Handler(msg)
+	if h == nil {
+		return sim.Result{OK: false, Err: "no handler"}, false
+	}
+	cctx, write := e.Ctx.CacheContext()
+	defer func() {
+		if r := recover(); r != nil {
+			res = sim.Result{OK: false, Panic: true, Err: fmt.Sprint(r)}
+			dirty = sim.Digest(e.App, cctx, nil) != pre
+		}
+	}()
+	r, err := h(cctx, msg)
+	if err != nil {
+		return sim.Result{OK: false, Code: errCode(err), Err: err.Error()}, sim.Digest(e.App, cctx, nil) != pre
+	}
+	write()
+	out := sim.Result{OK: true}
+	if r != nil {
+		out.Data = r.Data
+	}
+	return out, false
+}
+
+func errCode(err error) string {
+	type coder interface {
+		Codespace() string
+		ABCICode() uint32
+	}
+	for e := err; e != nil; {
+		if c, ok := e.(coder); ok {
+			return fmt.Sprintf("%s/%d", c.Codespace(), c.ABCICode())
+		}
+		u, ok := e.(interface{ Unwrap() error })
+		if !ok {
+			break
+		}
+		e = u.Unwrap()
+	}
+	return "unregistered"
+}
+
 type runner struct {
 	f   *Fix
 	lg  *sim.Log
@@ -135,13 +185,13 @@ func (r *runner) execState(s *sim.Env, root int, cells []Cell) {
 		sg := f.signer(c.Signer)
 		msg := builders[c.Msg](f, e, sg, f.Owner, "oracle")
 		pre, vpre := e.Digest(), f.VictimView(e, f.Owner)
-		res := e.Deliver(msg)
+		res, dirty := deliverObserved(e, msg, pre)
 		post, vpost := e.Digest(), f.VictimView(e, f.Owner)
 		args := map[string]interface{}{"m": c.M, "msg": c.Msg, "signer": c.Signer, "ref": 0}
 		if c.Signer != "owner" {
 			args["ref"] = ref[c.Msg]
 		}
-		id := r.lg.Add(root, r.run, "Own", args, rj(res), map[string]interface{}{"pre": pre, "post": post, "vpre": vpre, "vpost": vpost})
+		id := r.lg.Add(root, r.run, "Own", args, rj(res), map[string]interface{}{"pre": pre, "post": post, "vpre": vpre, "vpost": vpost, "dirty": dirty})
 		if c.Signer == "owner" {
 			ref[c.Msg] = id
 			r.lg.Nodes[id-1].Args.(map[string]interface{})["ref"] = id
@@ -210,7 +260,11 @@ func (r *runner) execState(s *sim.Env, root int, cells []Cell) {
 		for _, c := range cs {
 			e := ge.Branch()
 			for _, role := range c.Off {
-				PriceActive(e, f.roleAsset(c.H, c.Prod, role), false)
+				if c.Pm == "missing" {
+					PriceMissing(e, f.roleAsset(c.H, c.Prod, role))
+				} else {
+					PriceActive(e, f.roleAsset(c.H, c.Prod, role), false)
+				}
 			}
 			who := f.Owner
 			if openers[c.H] {
@@ -221,11 +275,11 @@ func (r *runner) execState(s *sim.Env, root int, cells []Cell) {
 			}
 			msg := builders[c.H](f, e, who, who, c.Prod)
 			pre := e.Digest()
-			res := e.Deliver(msg)
+			res, dirty := deliverObserved(e, msg, pre)
 			post := e.Digest()
 			rk := c.H + "/" + c.Prod
-			args := map[string]interface{}{"m": c.M, "h": c.H, "prod": c.Prod, "app": c.App, "breaker": c.Breaker, "esm": c.Esm, "off": c.Off, "ref": ref[rk]}
-			id := r.lg.Add(root, r.run, "Ctl", args, rj(res), map[string]interface{}{"pre": pre, "post": post})
+			args := map[string]interface{}{"m": c.M, "h": c.H, "prod": c.Prod, "app": c.App, "breaker": c.Breaker, "esm": c.Esm, "off": c.Off, "pm": c.Pm, "ref": ref[rk]}
+			id := r.lg.Add(root, r.run, "Ctl", args, rj(res), map[string]interface{}{"pre": pre, "post": post, "dirty": dirty})
 			if !c.Breaker && c.Esm == "off" && len(c.Off) == 0 {
 				ref[rk] = id
 				args["ref"] = id
